@@ -36,13 +36,15 @@ Inductive lcall :=
 | LEnd (e : N).                      (* msgs_to_send.end = e *)
 
 (* the log, run-length encoded: (count, ecu, apid) *)
+Fixpoint gen_run (cnt : nat) (e a c t dt i : N) : list cmsg :=
+  match cnt with
+  | O => []
+  | S k => {| c_ecu := e; c_apid := a; c_ctid := c; c_time := t; c_index := i |} :: gen_run k e a c (t + dt) dt (i + 1)
+  end.
 Fixpoint expand_from (idx : N) (l : list (N * N * N)) : list cmsg :=
   match l with
   | [] => []
-  | (cnt, e, a) :: r =>
-      map (fun i => {| c_ecu := e; c_apid := a; c_ctid := 0; c_time := 0; c_index := i |})
-          (map (fun k => idx + N.of_nat k) (seq 0 (N.to_nat cnt)))
-      ++ expand_from (idx + cnt) r
+  | (cnt, e, a) :: r => gen_run (N.to_nat cnt) e a 0 0 0 idx ++ expand_from (idx + cnt) r
   end.
 Definition expand := expand_from 0.
 
@@ -258,10 +260,7 @@ Definition frun := (N * N * N * N * N * N * N)%type.
 Fixpoint expand_file (l : list frun) : list cmsg :=
   match l with
   | [] => []
-  | (cnt, e, a, c, t0, dt, i0) :: r =>
-      map (fun k => {| c_ecu := e; c_apid := a; c_ctid := c; c_time := t0 + N.of_nat k * dt; c_index := i0 + N.of_nat k |})
-          (seq 0 (N.to_nat cnt))
-      ++ expand_file r
+  | (cnt, e, a, c, t0, dt, i0) :: r => gen_run (N.to_nat cnt) e a c t0 dt i0 ++ expand_file r
   end.
 
 Inductive case_C16 :=
